@@ -1,11 +1,13 @@
 use crate::run::Suite;
 use std::path::Path;
 
+pub mod c11;
 pub mod c20;
 pub mod c21;
 
 pub fn for_property(p: &str) -> Vec<Suite> {
     match p {
+        "C11" => c11::suites(),
         "C20" => c20::suites(),
         "C21" => c21::suites(),
         _ => vec![],
